@@ -153,6 +153,11 @@ def _c17_instances():
         for kind, term in (("path", ["has_path"]), ("min", ["rule_min_costs"]), ("max", ["rule_max_costs", "has_path"]),
                            ("term", ["rule_min_costs", "rule_max_costs", "has_path"])):
             out.append(I(f"c17::c17_{kind}_{tag}", tier, bounds=b, termination=term, shape=tag, kind=kind))
+    # FIRST / nullable: Vob-based code, affordable only at a few small shapes (15-20 GB each): thorough tier
+    for tag, b in (("a2_b1_c0", "3 user rules, productions len [2,1,0]"), ("a3_b0", "2 user rules, len [3,0]"),
+                   ("a21_b0", "2 user rules, len [2,1 | 0]"), ("a2_b2", "2 user rules, len [2 | 2]")):
+        out.append(I(f"c17::c17_first_{tag}", "thorough", bounds="FIRST/nullable, " + b + ", all slots symbolic, unwind 6",
+                     est_gb=20, mem_gb=30, timeout_s=3600))
     return out
 
 
@@ -160,6 +165,7 @@ PROPS["C17"] = {
     "functions_encoded": [
         "cfgrammar::yacc::YaccGrammar::has_path", "cfgrammar::yacc::grammar::rule_min_costs",
         "cfgrammar::yacc::grammar::rule_max_costs", "SentenceGenerator::{new, min_sentence_cost, max_sentence_cost}",
+        "cfgrammar::yacc::firsts::YaccFirsts::{new, is_set, is_epsilon_set, set} (thorough tier only)",
         "YaccGrammar::{iter_rules, rule_to_prods, prod, prod_to_rule, rules_len}",
     ],
     "bounds": {
@@ -169,11 +175,13 @@ PROPS["C17"] = {
                  "every token cost in 1..3 and the candidate fixed point X are solver variables; unwind = derived "
                  "bound (rules + 2 rounds of each fixed-point loop)",
         "thorough": "all 36 shapes of G(2,3,2,3) plus 7 hand-picked shapes of G(3,4,3,3) (3 user rules, 4 user "
-                    "productions of length <= 3)",
+                    "productions of length <= 3); FIRST/nullable as the least model of the textbook Horn system at "
+                    "the shapes a2_b1_c0, a3_b0, a21_b0, a2_b2 (all slots symbolic)",
     },
     "outside_claim": [
-        "FIRST / nullable / FOLLOW (YaccFirsts::new, YaccFollows::new): Vob + Box<dyn Iterator> over symbolic "
-        "indices measured out of reach at this domain (DESIGN 4, probes 11-13, 21)",
+        "FOLLOW (YaccFollows::new): out of memory at the smallest relevant shape (DESIGN 4, probe 21; again at "
+        "21 GB with the as-built harness); FIRST / nullable only in the thorough tier at four small shapes "
+        "(15-20 GB each), not in the quick tier",
         "min_sentence / min_sentences (sentence construction)",
         "grammars with more rules / productions / longer productions than the domain; token costs > 3",
         "maximum cost of rules on unit-only cycles: 'recursive' and 'unbounded' differ there; None is accepted "
